@@ -896,12 +896,13 @@ Definition render_parse_roundtrip_statement : Prop :=
     exists t', new_table pweight_dec canon glob_ok (render (sort_table t)) = Ok t'
                /\ table_eq4 (sort_table t) t'.
 
-(* What is proved instead ([..._partial]): the statement's conclusion on concrete tables by
-   evaluation (below: a table with three hosts, weights, tags, options, an empty host and a
-   port-only host), and its failure outside the domain.  Missing for the full statement: the
-   inversion of the scanner on rendered lines (tok / ws1 / quoted against ++) and exactness of
-   pweight_dec o fmt4 on 4-decimal values; both are exercised on every generated table by the
-   correspondence run (case CRound), which compares render and the re-parse with the real code. *)
+(* Status: the round trip IS proved at character level in Proofs/RouteRoundTrip.v
+   ([render_parse_roundtrip]) for every table in the domain above whose weights are on the
+   4-decimal grid ([weight_text_stable], proved for k/10000 with k <= 10000, a hypothesis beyond).
+   Still missing for THIS statement: weights off the grid (equality only after rounding, [table_eq4]),
+   and deriving the side conditions "host ++ path splits back" and "option keys ascending" from
+   reachability by commands.  [render_parse_roundtrip_partial] below evaluates the conclusion on a
+   concrete table that does have off-grid weights. *)
 Definition ex_rt_script : str :=
   bs "route add svc-a foo.com/ http://10.0.0.1:80/ weight 0.25 tags ""a,b"" opts ""strip=/x proto=https""" ++ nl
   ++ bs "route add svc-b foo.com/ http://10.0.0.2:80/" ++ nl
